@@ -254,12 +254,18 @@ func Enumerate(msg interface{}, extraBytes [][]byte) []Mut {
 			case reflect.Int:
 				for _, val := range []int{-5, math.MaxInt64, math.MinInt64} {
 					vv := val
-					add(path, name, fmt.Sprintf("value of first entry = %d", vv), func(x reflect.Value) bool { x.SetMapIndex(k0, reflect.ValueOf(vv).Convert(x.Type().Elem())); return true })
+					add(path, name, fmt.Sprintf("value of first entry = %d", vv), func(x reflect.Value) bool {
+						x.SetMapIndex(k0, reflect.ValueOf(vv).Convert(x.Type().Elem()))
+						return true
+					})
 				}
 			case reflect.String:
 				for _, s := range hostileStrings[:8] {
 					ss := s
-					add(path, name, fmt.Sprintf("value of first entry = %q", ss), func(x reflect.Value) bool { x.SetMapIndex(k0, reflect.ValueOf(ss).Convert(x.Type().Elem())); return true })
+					add(path, name, fmt.Sprintf("value of first entry = %q", ss), func(x reflect.Value) bool {
+						x.SetMapIndex(k0, reflect.ValueOf(ss).Convert(x.Type().Elem()))
+						return true
+					})
 				}
 				if kt.Kind() == reflect.String {
 					// the same entry again under re-encoded keys
